@@ -70,11 +70,14 @@ SHEET = 'Sheet1!'
 # cell value tokens
 ABSENT = object()
 CONTENT = {'T': True, 'F': False, '0': 0, '2': 2, '-1': -1, '.5': 0.5,
-           'B': ABSENT, 'E': '=1/0', 'N': '=NA()'}
+           'B': ABSENT, 'E': '=1/0', 'N': '=NA()',
+           # a cell whose value is IF's default branch (FALSE)
+           'D': '=IF(FALSE,5)'}
 REFVAL = {'T': True, 'F': False, '0': 0.0, '2': 2.0, '-1': -1.0, '.5': 0.5,
-          'B': None, 'E': lazy.Err('#DIV/0!'), 'N': lazy.Err('#N/A')}
+          'B': None, 'E': lazy.Err('#DIV/0!'), 'N': lazy.Err('#N/A'),
+          'D': False}
 T5 = ('T', 'F', '0', '2', 'B')
-T6 = ('T', 'F', '0', '2', 'B', 'E')
+T6 = ('T', 'F', '0', '2', 'B', 'E', 'D')
 
 FIVE = ('lit', '5', 5.0)
 ONE = ('lit', '1', 1.0)
@@ -516,7 +519,7 @@ def nested_shapes(depth_lo, depth_hi):
 def andor_scalar_kinds():
     """Argument kinds for position i (own cell): (name, tree-maker, token)."""
     kinds = []
-    for tok in ('T', 'F', '0', '2', 'B', 'E', 'N'):
+    for tok in ('T', 'F', '0', '2', 'B', 'E', 'N', 'D'):
         kinds.append(('ref' + tok, None, tok))
     for name, tree in (('TRUE', LTRUE), ('FALSE', LFALSE),
                        ('0', ('lit', '0', 0.0)), ('2', ('lit', '2', 2.0)),
@@ -598,6 +601,93 @@ def call_cases(tier):
     return out
 
 
+# -- the same evaluator across truth assignments ----------------------------
+# "all truth assignments to the referenced cells": also an assignment that is
+# made on an evaluator which has already evaluated the formula under another
+# one - in particular one under which the poisoned branch was selected and the
+# evaluation failed, as it must.
+FLIP_POISON = {
+    'nosuch': ('=IF(A1,NOSUCH(1),7)', None, 'raise'),
+    'nosuch-else': ('=IF(A1,7,NOSUCH(1))', None, 'raise-else'),
+    'cycle': ('=IF(A1,D1,7)', '=C1*2', 'raise'),
+    'cycle2': ('=IF(A1,Y1,7)', None, 'raise'),
+    'div0': ('=IF(A1,1/0,7)', None, 'err'),
+    'guarded-and': ('=IF(AND(A1:A2,B1),NOSUCH(),7)', None, 'raise'),
+}
+FLIP_TARGET = {
+    'plus': ('=C1+1', lambda a, c: c + 1),
+    'if-same-guard': ('=IF(A1,C1,C1+1)', lambda a, c: c if a else c + 1),
+    'two-uses': ('=IF(NOT(A1),C1*10,C1)+C1',
+                 lambda a, c: (c * 10 if not a else c) + c),
+}
+FLIP_TOKENS = ('T', 'F', '0', '2')
+FLIP_LEN = {'quick': 3, 'thorough': 4}
+
+
+def flip_cases(tier):
+    out = []
+    for pname in sorted(FLIP_POISON):
+        for tname in sorted(FLIP_TARGET):
+            for seq in itertools.product(FLIP_TOKENS, repeat=FLIP_LEN[tier]):
+                out.append((pname, tname, seq))
+    return out
+
+
+def flip_want(pname, tname, tok):
+    truth = bool(REFVAL[tok])
+    mode = FLIP_POISON[pname][2]
+    poisoned = truth if mode != 'raise-else' else not truth
+    if poisoned:
+        return 'err:#DIV/0!' if mode == 'err' else 'raise'
+    return 'num:%s' % lib.fnum(float(FLIP_TARGET[tname][1](truth, 7.0)))
+
+
+def flip_model(pname, tname):
+    c1, d1, _ = FLIP_POISON[pname]
+    cells = {SHEET + 'A1': True, SHEET + 'A2': True, SHEET + 'B1': True,
+             SHEET + 'C1': c1, AT: FLIP_TARGET[tname][0],
+             SHEET + 'Y1': '=Y2+1', SHEET + 'Y2': '=Y1+1'}
+    if d1:
+        cells[SHEET + 'D1'] = d1
+    model = lib.compile_dict(cells)
+    return model, lib.Evaluator(model)
+
+
+def judge_flip(pname, tname, seq, ctx):
+    key = 'C10/FLIP/%s/%s/%s' % (pname, tname, ''.join(seq))
+    tags = ['fn:IF', 'family:flip', 'poison:' + pname, 'target:' + tname]
+    inputs = {'kind': 'flip', 'poison': pname, 'target': tname,
+              'seq': list(seq), 'tags': tags}
+    try:
+        with lib.time_limit():
+            model, ev = flip_model(pname, tname)
+    except Exception as exc:  # noqa: BLE001
+        ctx.fail(key, tags, inputs, 'a compiled model',
+                 'compile-raise:%s' % type(lib.innermost(exc)).__name__, True)
+        return
+    wants, gots = [], []
+    for tok in seq:
+        try:
+            ev.set_cell_value(SHEET + 'A1', CONTENT[tok])
+        except Exception as exc:  # noqa: BLE001
+            gots.append('set-raise:%s' % type(exc).__name__)
+            wants.append('-')
+            break
+        obs = lib.eval_addr(model, AT, ev)
+        want = flip_want(pname, tname, tok)
+        wants.append(want)
+        gots.append('raise' if want == 'raise' and obs.startswith('raise:')
+                    and 'Timeout' not in obs and obs != 'raise:RecursionError'
+                    else obs)
+    nontrivial = len(set(wants)) > 1
+    if wants == gots:
+        ctx.ok(key, '|'.join(gots), nontrivial)
+    else:
+        ctx.fail(key, tags, inputs, ' ; '.join(wants), ' ; '.join(gots),
+                 nontrivial, note='A1 := %s in turn, %s evaluated after each '
+                 'on the same evaluator' % ('/'.join(seq), AT))
+
+
 # -- plan / shards -----------------------------------------------------------
 def plan(tier):
     shards = []
@@ -624,6 +714,8 @@ def plan(tier):
     for lo in range(0, nforms, chunk):
         shards.append({'fam': 'ANDOR', 'tier': tier, 'lo': lo,
                        'hi': min(nforms, lo + chunk)})
+    for pname in sorted(FLIP_POISON):
+        shards.append({'fam': 'FLIP', 'tier': tier, 'poison': pname})
     ncall = len(call_cases(tier))
     for lo in range(0, ncall, 500):
         shards.append({'fam': 'CALL', 'tier': tier, 'lo': lo,
@@ -746,6 +838,14 @@ def run_shard(shard, ctx):
         name, args, env = forms[shard['lo']]
         ctx.sample({'family': 'ANDOR', 'formula': '=' + lazy.render(
             ('and', [S(i, a) for i, a in enumerate(args)])), 'cells': env})
+    elif fam == 'FLIP':
+        for pname, tname, seq in flip_cases(shard['tier']):
+            if pname == shard['poison']:
+                judge_flip(pname, tname, seq, ctx)
+        ctx.sample({'family': 'FLIP', 'cells': {
+            'C1': FLIP_POISON[shard['poison']][0], 'Z1': '=C1+1'},
+            'history': 'A1 := TRUE, evaluate Z1 (fails); A1 := FALSE, '
+                       'evaluate Z1 on the same evaluator (8)'})
     elif fam == 'CALL':
         cases = call_cases(shard['tier'])
         for fn, toks, mode in cases[shard['lo']:shard['hi']]:
@@ -794,6 +894,9 @@ def replay(inputs, ctx):
         judge_andor(inputs['fam'], inputs['fn'],
                     [_tup(a) for a in inputs['args']], inputs['env'],
                     inputs['spied'], inputs['tags'], ctx)
+    elif kind == 'flip':
+        judge_flip(inputs['poison'], inputs['target'], tuple(inputs['seq']),
+                   ctx)
     else:
         judge_call(inputs['fn'], tuple(inputs['toks']), inputs['mode'], ctx)
 
